@@ -279,3 +279,131 @@ def c16(pid, tier, replay):
                      "1 s and 1 ns on the same plugin instance, plus random large values with readings at deadline-1/deadline; "
                      "non-trivial = deprecated with at least two readings",
                      ["the clock is injected through the plugin's TimeNow field", "integer units: sub-unit clock readings are not generated"])
+
+
+# ---------------------------------------------------------------- C05 ----
+COR_PKGS = {"internal/corerad": ["common/vf_util.go", "common/vf_ra.go", "corerad/vf_world.go", "corerad/vf_adv.go",
+                                 "corerad/vf_mdelay.go"],
+            "internal/system": ["system/vf_export.go"]}
+
+
+def c05(pid, tier, replay):
+    import adv, checks_adv, advtrace
+    t0 = time.time()
+    thorough = tier == "thorough"
+    tmp = vf.mktmp("vf-C05-")
+    rng = random.Random(vf.seed() * 31337 + 5)
+    mcs = []
+    vecs = []
+    if replay:
+        rp = json.load(open(replay))
+        vecs = rp.get("vectors", [])
+        scen = rp.get("scenarios", [])
+    else:
+        # (a) function level: TLC over the accepted (min, max) grid
+        runs = [("grid", dict(MaxLoS=4, MaxHiS=1800 if thorough else 150, Fracs="{0}", FullMins="TRUE"), False),
+                ("boundary", dict(MaxLoS=4, MaxHiS=1800, Fracs="{0, 400, 500, 600}" if thorough else "{0, 500}", FullMins="FALSE"), True)]
+        for name, c, emit in runs:
+            cfg = os.path.join(tmp, "MD_%s.cfg" % name)
+            consts = dict(InitCap=16000, InitCount=3, Sec=1000)
+            consts.update(c)
+            _cfg(cfg, "MSpec", consts, "C05_Wait C05_RangeOK" + (" EmitVec" if emit else ""))
+            r = vf.tlc("MDelayMC", cfg, workdir=vf.mktmp("vf-md-"), timeout=3000, heap="8g")
+            mcs.append({"config": "MDelayMC " + name, "constants": consts, "states": r["states"], "transitions": r["generated"],
+                        "ok": r["ok"], "violation": r["violation"], "wall_s": round(r["wall_s"], 1)})
+            if not r["ok"]:
+                print("MODEL-COUNTEREXAMPLE property=C05 config=%s %s (not a verdict)" % (name, r["violation"]))
+            if emit:
+                rows = sorted(r["printed"], key=lambda p: p["mx"])
+                step = 1 if thorough else 5
+                for p in rows[::step]:
+                    for mn in p["mins"]:
+                        for i in (0, 2, 3):
+                            vecs.append({"kind": "c05", "id": "c05-%d-%d-%d" % (p["mx"], mn, i), "in": {"i": i, "min": mn, "max": p["mx"]}})
+        # random accepted pairs
+        for j in range(20000 if thorough else 2000):
+            mx = rng.randrange(4000, 1800001)
+            upper = (3 * mx // 4) // 1000 * 1000
+            mn = rng.randrange(3000, upper + 1) if rng.random() < 0.8 else (mx if mx < 9000 else (33 * mx // 100) // 1000 * 1000)
+            vecs.append({"kind": "c05", "id": "c05-rand-%05d" % j, "in": {"i": rng.randrange(0, 6), "min": mn, "max": mx}})
+        # (b) loop level: quiet runs of the real advertiser; the gaps between multicast RAs are the chosen waits
+        scen = []
+        pairs = [(6000, 8000), (6000, 8001), (7000, 9400), (16000, 23000), (17000, 23000), (6500, 9500), (200000, 600000),
+                 (1350000, 1800000), (-1, 8000), (-1, 6500), (6000, 20000), (15500, 21500), (-1, 19000)]
+        for j in range(60 if thorough else 12):
+            mx = rng.randrange(8000, 60000)
+            pairs.append((rng.randrange(6000, (3 * mx // 4) // 1000 * 1000 + 1), mx))
+        pairs = [(mn, mx) for mn, mx in pairs if mn < 0 or mn >= 6000]
+        for n, (mn, mx) in enumerate(pairs):
+            for rep in range(6 if thorough else 2):
+                periods = 9
+                horizon = min(periods * (mx + 1000) + 4000, 40 * 60000)
+                scen.append({"id": "C05-quiet-%03d-%d" % (n, rep),
+                             "cfg": {"min": mn, "max": mx, "life": -1 if mx <= 600000 else 9000, "quiet": True,
+                                     "offset": rng.randrange(0, 977)},
+                             "steps": [{"op": "adv", "to": horizon}, {"op": "cancel", "term": rep % 2 == 0}]})
+    rc = 0
+    nviol = 0
+    rows = []
+    if vecs:
+        outs = run_vectors(tmp, vecs, COR_PKGS, "internal/corerad", "^TestVF_MDelay$", "C05v")
+        viols, rows = validate_vectors_consts(tmp, outs)
+        by_id = {v["id"]: v for v in vecs}
+        for v in viols[:8]:
+            path = vf.save_replay(pid, v["id"], {"property": pid, "clause": v["viol"], "vectors": [by_id.get(v["id"])]})
+            print("VIOLATION property=C05 replay=%s vector=%s" % (path, v["id"]))
+        nviol += len(viols)
+    ntr = 0
+    if scen:
+        outs = adv.run_scenarios(tmp, scen, "C05s")
+        viols2, ntr, nlines, samples = adv.validate(tmp, outs, "C05s")
+        mine = [v for v in viols2 if "c05" in v["viol"] or v["viol"] == "panic"]
+        by_id = {s["id"]: s for s in scen}
+        for v in mine[:8]:
+            path = vf.save_replay(pid, v["id"], {"property": pid, "clause": v["viol"], "scenarios": [by_id.get(v["id"])]})
+            print("VIOLATION property=C05 replay=%s clause=%s scenario=%s" % (path, v["viol"], v["id"]))
+        for v in [v for v in viols2 if v not in mine][:3]:
+            print("NOTE other-property clause=%s scenario=%s" % (v["viol"], v["id"]))
+        nviol += len(mine)
+    rc = 1 if nviol else 0
+    cov = {"states": sum(m["states"] for m in mcs) or 1, "transitions": sum(m["transitions"] for m in mcs) or 1,
+           "traces_validated_against_impl": len(rows) + ntr,
+           "samples": rows[:2] + scen[:1],
+           "evaluations": len(vecs) + len(scen),
+           "distinct_nontrivial": len({(v["in"]["min"], v["in"]["max"]) for v in vecs if v["in"]["min"] != v["in"]["max"]}),
+           "rule": "function level: TLC checks ImplWait in AllowedWait for every whole-second max 4..150 s (quick) / 4..1800 s "
+                   "(thorough) x every accepted whole-second min x index 0..4 x extreme/middle draws, plus boundary minimums "
+                   "with sub-second parts for every max; boundary and random accepted (i, min, max) vectors run through the real "
+                   "multicastDelay with scripted draws {0, 1 ns, mid, range-1 ns, random}. Loop level: quiet virtual-time runs of "
+                   "the real advertiser over >= 9 periods whose multicast RA gaps are the chosen waits, judged by AdvReq. "
+                   "non-trivial = distinct (min, max) pairs with min < max",
+           "model_checking_runs": mcs, "quiet_loop_runs": len(scen), "violating": nviol, "exhaustive": False}
+    vf.write_evidence(pid, tier, "model_checking", cov,
+                      ["function-level draws are injected through a scripted rand.Source (Int63n(n) returns the scripted value when it is < n)",
+                       "loop level: with MinRtrAdvInterval >= 6 s and no solicitations the rate limiter never shifts a periodic RA after the first one, so transmit instants are request instants",
+                       "built with go1.26.8 for testing/synctest"], time.time() - t0, violations=nviol)
+    print("C05 %s: model states=%d, %d vectors + %d quiet loop runs validated, %d violation(s), %.0fs"
+          % (tier, cov["states"], len(vecs), len(scen), nviol, time.time() - t0))
+    return rc
+
+
+def validate_vectors_consts(tmp, outs, lines_per_batch=6000):
+    rows = []
+    for f in outs:
+        rows += vf.read_ndjson(f)
+    cfg = os.path.join(tmp, "WaitTrace.cfg")
+    _cfg(cfg, "TSpec", dict(InitCap=16000, InitCount=3, Sec=1000), None, post="Consumed")
+    batches = [rows[i:i + lines_per_batch] for i in range(0, len(rows), lines_per_batch)]
+
+    def one(b):
+        wd = vf.mktmp("vf-wt-")
+        vf.write_ndjson(os.path.join(wd, "trace.ndjson"), b)
+        r = vf.tlc("WaitTrace", cfg, workdir=wd, workers=1, timeout=1500, heap="3g")
+        if not r["ok"] or r["states"] != len(b) + 1:
+            raise vf.Infra("wait validation consumed %d of %d lines (%s)" % (r["states"] - 1, len(b), r["violation"]))
+        return r["printed"]
+    viols = []
+    with concurrent.futures.ThreadPoolExecutor(max_workers=min(vf.NCPU, 14)) as ex:
+        for pr in ex.map(one, batches):
+            viols += pr
+    return viols, rows
